@@ -458,6 +458,8 @@ def run(tier):
     rule_R11(res, prog)
     rule_R12(res, prog)
     rule_R13(res, prog)
+    rule_R14(res, prog)
+    rule_R15(res, prog)
     return res.finish()
 
 
@@ -1303,4 +1305,142 @@ def rule_R13(res, prog):
                                  "nextUpdate parses and authenticates), so validation dereferences NULL" % (
                                      fn.relfile, ln, fn.name, cu.ftext(a0), c["fn"]), file=fn.relfile, line=ln)
                 res.instance(rid, "%s:%s %s -> %s() parameter %d" % (fn.name, ln, cu.ftext(a0), c["fn"], k), ok, finding=f_)
+    res.floor(rid, 1)
+
+
+def rule_R14(res, prog):
+    """'each public API call returns in bounded time': a loop that hands a cursor to a sub-parser (`f(.., &p, end)`) and
+    guards against `no progress` by comparing the cursor with a remembered position only terminates if the remembered
+    position is refreshed in every iteration.  For every loop in the protocol code that compares two local pointers for
+    equality where one of them is passed by address to a callee inside the loop: the other one is assigned inside the loop as
+    well (a position remembered before the loop covers the first iteration only - a sub-parser returning success without
+    consuming the 1..3 bytes of a split header then spins for ever)."""
+    from sa import cfgutil as cu
+    rid = "C08.R14"
+    res.rule(rid, "a loop's no-progress guard compares the cursor with a position remembered in the same iteration")
+    n = 0
+    for fn in sorted(prog.functions.values(), key=lambda f: f.qname):
+        if not fn.blocks or not fn.relfile.startswith("matrixssl/") or "/test/" in fn.relfile:
+            continue
+        succ = {b["id"]: [sc.get("b") for sc in b["succ"] if sc.get("b") is not None] for b in fn.blocks}
+        cmps = []
+        for b in fn.blocks:
+            t = b.get("term")
+            if t is None or "c" not in t:
+                continue
+            for m in walk(t["c"]):
+                if m.get("k") == "bin" and m["op"] in ("==", "!="):
+                    l, r = strip(m["l"]), strip(m["r"])
+                    if l is not None and r is not None and l.get("k") == "var" and r.get("k") == "var" and l.get("sc") == "l" and \
+                            r.get("sc") == "l" and "*" in (l.get("t") or "") and "*" in (r.get("t") or "") and l.get("id") != r.get("id"):
+                        cmps.append((b, t.get("ln"), l, r))
+        if not cmps:
+            continue
+
+        def reach(src):
+            seen, st = set(), list(succ.get(src, []))
+            while st:
+                q = st.pop()
+                if q in seen:
+                    continue
+                seen.add(q)
+                st.extend(succ.get(q, []))
+            return seen
+        for (b, ln, l, r) in cmps:
+            rb = reach(b["id"])
+            if b["id"] not in rb:
+                continue
+            loop = set(k for k in rb if b["id"] in reach(k)) | {b["id"]}
+            assigned, byaddr = set(), set()
+            for k in loop:
+                for i, l2, x in cu.block_exprs(fn.bmap[k]):
+                    for m in walk(x):
+                        if m.get("k") == "bin" and m["op"] in ("=", "+=", "-=") and (strip(m["l"]) or {}).get("k") == "var":
+                            assigned.add(strip(m["l"]).get("id"))
+                        if m.get("k") == "un" and m.get("op") in ("post++", "pre++", "post--", "pre--") and (strip(m["e"]) or {}).get("k") == "var":
+                            assigned.add(strip(m["e"]).get("id"))
+                        if m.get("k") == "call":
+                            for a in m.get("a", []):
+                                a0 = strip(a)
+                                if a0 is not None and a0.get("k") == "un" and a0.get("op") == "&" and (strip(a0["e"]) or {}).get("k") == "var":
+                                    byaddr.add(strip(a0["e"]).get("id"))
+            # `mark` remembers a position of `cur`: somewhere in the function it is set to exactly cur's value
+            copies = set()
+            for bb in fn.blocks:
+                for i, l2, x in cu.block_exprs(bb):
+                    for m in walk(x):
+                        if m.get("k") == "bin" and m["op"] == "=" and (strip(m["l"]) or {}).get("k") == "var" and (strip(m["r"]) or {}).get("k") == "var":
+                            copies.add((strip(m["l"]).get("id"), strip(m["r"]).get("id")))
+                        if m.get("k") == "decl" and "init" in m and (strip(m["init"]) or {}).get("k") == "var":
+                            copies.add(((m.get("var") or {}).get("id"), strip(m["init"]).get("id")))
+            for (cur, mark) in ((l, r), (r, l)):
+                if cur.get("id") in byaddr and mark.get("id") not in byaddr and (mark.get("id"), cur.get("id")) in copies:
+                    n += 1
+                    ok = mark.get("id") in assigned
+                    f_ = None
+                    if not ok:
+                        f_ = Finding(PROP, rid, fn.name, "no-progress guard compares with a position taken before the loop",
+                                     "%s:%s %s(): the loop hands `%s` by address to a sub-parser and tests `%s == %s`, but `%s` is not assigned "
+                                     "inside the loop: the guard only covers the first iteration, so a record that holds a complete message "
+                                     "followed by 1..3 bytes (the sub-parser returns success without consuming them) keeps the call spinning for "
+                                     "ever" % (fn.relfile, ln, fn.name, cur.get("n"), mark.get("n"), cur.get("n"), mark.get("n")),
+                                     file=fn.relfile, line=ln)
+                    res.instance(rid, "%s:%s guard %s vs %s refreshed per iteration" % (fn.name, ln, cur.get("n"), mark.get("n")), ok, finding=f_)
+    res.floor(rid, 1)
+
+
+def rule_R15(res, prog):
+    """'never writes outside live objects' for the two handshake reassembly mechanisms of parseSSLHandshake: the DTLS one
+    (buffer of hsLen bytes, fragments placed by offset, checked against fragLenStored) and the one for TLS over a stream
+    (buffer of hsLen + header bytes, filled by fragIndex) share ssl->fragMessage / ssl->fragTotal.  They must never both be
+    active: the stream-style allocation is unreachable over DTLS-only edges (a truncated DTLS message is refused instead).
+    Otherwise a later DTLS fragment is copied into the smaller stream-style block, checked only against the stale
+    fragLenStored - a pre-authentication heap overflow."""
+    from sa import cfgutil as cu
+    rid = "C08.R15"
+    res.rule(rid, "the stream-style handshake reassembly buffer is never allocated under a DTLS version (the two reassemblies share fragMessage/fragTotal)")
+    lst = prog.by_name.get("parseSSLHandshake")
+    if not lst:
+        raise AnalysisBroken("C08.R15: parseSSLHandshake vanished")
+    fn = lst[0]
+    if not prog.by_name.get("dtlsChkReplayWindow"):
+        res.floor(rid, 0)
+        return
+    dtls_mask = prog.enums.get("v_dtls_any")
+
+    def is_dtls_cond_txt(txt):
+        import re
+        m = re.match(r"^\(ssl->activeVersion & (\d+)\)$", txt)
+        return bool(m) and (int(m.group(1)) & dtls_mask) and not (int(m.group(1)) & ~dtls_mask)
+
+    def non_dtls_edge(b, k):
+        t = b.get("term")
+        if t is None or "c" not in t or len(b["succ"]) != 2:
+            return False
+        return any(is_dtls_cond_txt(txt) and not tr for (txt, tr, nd) in cu._cond_atoms(t["c"], k == 0))
+    n = 0
+    for b in fn.blocks:
+        for idx, ln, x in cu.block_exprs(b):
+            for m in walk(x):
+                if m.get("k") == "bin" and m["op"] == "=" and cu.ftext(strip(m["l"]) or {}) == "ssl->fragMessage":
+                    r = strip(m["r"])
+                    while r is not None and r.get("k") == "cast":
+                        r = strip(r["e"])
+                    if r is None or r.get("k") != "call" or r.get("fn") not in ("malloc", "psMalloc", "Malloc"):
+                        continue
+                    size = strip(r["a"][-1]) if r.get("a") else None
+                    stream = size is not None and cu.ftext(size) not in ("hsLen",)
+                    if not stream:
+                        continue
+                    n += 1
+                    esc = cu.escapes(fn, (fn.entry, None), lambda y: False, exempt_edge=non_dtls_edge, target_expr=lambda y, x=x: y is x)
+                    f_ = None
+                    if esc is not None:
+                        f_ = Finding(PROP, rid, fn.name, "stream-style reassembly reachable under DTLS",
+                                     "%s:%s parseSSLHandshake(): ssl->fragMessage = malloc(%s) (reassembly for TLS over a stream) is reachable without "
+                                     "taking a not-DTLS edge (via lines %s): a DTLS message whose body is shorter than its fragment length starts "
+                                     "it, fragTotal becomes non-zero, and the next DTLS fragment of an earlier message length is copied into this "
+                                     "smaller block (checked against the stale fragLenStored only) - heap overflow before authentication" % (
+                                         fn.relfile, ln, cu.ftext(size)[:40], [p_[1] for p_ in esc[-6:]]), file=fn.relfile, line=ln)
+                    res.instance(rid, "parseSSLHandshake:%s stream-style reassembly buffer only on not-DTLS paths" % ln, esc is None, finding=f_)
     res.floor(rid, 1)
